@@ -78,6 +78,44 @@ pub trait BddBuilder<'a>: BottomUpBuilder<'a, BddPtr<'a>> {
                 (forall|i: int| 0 <= i < f.len() ==> self.shape2(#[trigger] f@[i])) ==> self.shape2(cur_bdd),
                 forall|env: Env| #[trigger] tr(env) ==> cur_bdd.sem(env) == (forall|i: int| 0 <= i < it.index@ ==> (#[trigger] f@[i]).sem(env)), // #SEM
 //%% end
+
+//%% extract src/builder/bdd/builder.rs :: trait BddBuilder<'a>: BottomUpBuilder<'a, BddPtr<'a>> :: fn collapse_clauses
+//%% @attr #[verifier::exec_allows_no_decreases_clause]
+//%% @ret r
+//%% @spec
+        requires self.bu_inv(), forall|i: int| 0 <= i < vec.len() ==> self.ok(#[trigger] vec@[i]),
+        ensures
+            // None exactly for the empty slice; otherwise the conjunction of the slice
+            (r is None) == (vec.len() == 0),
+            r matches Some(x) ==> self.ok(x),
+            r matches Some(x) ==> ((forall|i: int| 0 <= i < vec.len() ==> self.shape2(#[trigger] vec@[i])) ==> self.shape2(x)), // #C02
+            r matches Some(x) ==> (forall|env: Env| #[trigger] tr(env) ==> x.sem(env) == (forall|i: int| 0 <= i < vec.len() ==> (#[trigger] vec@[i]).sem(env))), // #SEM
+//%% @entry
+        proof {
+            let mid = (vec.len() / 2) as int;
+            assert forall|env: Env| #[trigger] tr(env) implies
+                (forall|i: int| 0 <= i < vec.len() ==> (#[trigger] vec@[i]).sem(env))
+                == ((forall|i: int| 0 <= i < mid ==> (#[trigger] vec@.subrange(0, mid)[i]).sem(env))
+                    && (forall|i: int| 0 <= i < vec.len() - mid ==> (#[trigger] vec@.subrange(mid, vec.len() as int)[i]).sem(env))) by {
+                if (forall|i: int| 0 <= i < vec.len() ==> (#[trigger] vec@[i]).sem(env)) {
+                    assert forall|i: int| 0 <= i < mid implies (#[trigger] vec@.subrange(0, mid)[i]).sem(env) by { assert(vec@.subrange(0, mid)[i] == vec@[i]); }
+                    assert forall|i: int| 0 <= i < vec.len() - mid implies (#[trigger] vec@.subrange(mid, vec.len() as int)[i]).sem(env) by { assert(vec@.subrange(mid, vec.len() as int)[i] == vec@[i + mid]); }
+                }
+                if (forall|i: int| 0 <= i < mid ==> (#[trigger] vec@.subrange(0, mid)[i]).sem(env))
+                    && (forall|i: int| 0 <= i < vec.len() - mid ==> (#[trigger] vec@.subrange(mid, vec.len() as int)[i]).sem(env)) {
+                    assert forall|i: int| 0 <= i < vec.len() implies (#[trigger] vec@[i]).sem(env) by {
+                        if i < mid { assert(vec@.subrange(0, mid)[i] == vec@[i]); } else { assert(vec@.subrange(mid, vec.len() as int)[i - mid] == vec@[i]); }
+                    }
+                }
+            }
+            assert forall|i: int| 0 <= i < mid implies self.ok(#[trigger] vec@.subrange(0, mid)[i]) by { assert(vec@.subrange(0, mid)[i] == vec@[i]); }
+            assert forall|i: int| 0 <= i < vec.len() - mid implies self.ok(#[trigger] vec@.subrange(mid, vec.len() as int)[i]) by { assert(vec@.subrange(mid, vec.len() as int)[i] == vec@[i + mid]); }
+            if (forall|i: int| 0 <= i < vec.len() ==> self.shape2(#[trigger] vec@[i])) {
+                assert forall|i: int| 0 <= i < mid implies self.shape2(#[trigger] vec@.subrange(0, mid)[i]) by { assert(vec@.subrange(0, mid)[i] == vec@[i]); }
+                assert forall|i: int| 0 <= i < vec.len() - mid implies self.shape2(#[trigger] vec@.subrange(mid, vec.len() as int)[i]) by { assert(vec@.subrange(mid, vec.len() as int)[i] == vec@[i + mid]); }
+            }
+        }
+//%% end
 }
 
 impl<'a, T> BottomUpBuilder<'a, BddPtr<'a>> for T
